@@ -39,7 +39,7 @@ def mk_seqrecord(j, cls=None):
         Seq(j["seq"]), id=j.get("id", "rec"), name=j.get("name", "rec"),
         description=j.get("desc", "d"), dbxrefs=list(j.get("dbxrefs", [])),
         features=[mk_feature(f) for f in j.get("features", [])],
-        annotations=ann,
+        annotations=ann or None,      # no annotations mapping at all when there is nothing to put in it
         letter_annotations={"t%d" % i: list(t) for i, t in enumerate(j.get("tracks", []))} or None,
     )
     return rec
